@@ -289,21 +289,21 @@ pub fn c05_drop(cfg: &Value) {
     }
     let (stream, log) = RecStream::new(BTreeMap::new());
     let (q, handle) = build(boxed, 8, stream);
-    let returned = Returned::default();
+    let returned: Visible<Vec<Tag>> = Visible::new();
     let producer = {
         let (q, returned) = (q.clone(), returned.clone());
         thread::spawn(move || {
             for si in 0..prod_n {
                 let t = Tag { p: 1, seq: si as u8 };
                 q.append(t);
-                returned.push(t);
+                returned.update(|r| r.push(t));
             }
         })
     };
     for si in 0..main_n {
         let t = Tag { p: 0, seq: si as u8 };
         q.append(t);
-        returned.push(t);
+        returned.update(|r| r.push(t));
         if clone_drop && si == 0 {
             let c = q.clone();
             drop(c);
@@ -312,7 +312,7 @@ pub fn c05_drop(cfg: &Value) {
     if flush_first {
         drop(q.flush_async());
     }
-    let before = returned.get();
+    let before = returned.read();
     if use_shut_down {
         handle.shut_down();
     } else {
@@ -487,4 +487,45 @@ pub fn c09(cfg: &Value) {
     if overflows as usize != total - logged.len() {
         mc::violation("overflow-counter", format!("metrique_queue_overflows = {overflows} but {} of {total} entries were discarded: {}", total - logged.len(), log_string(&end)));
     }
+}
+
+/// C01, several queues in one process: the queues' writer threads share process-global state
+/// (the rate limiters behind the error reports). Each queue gets entries for which its stream
+/// returns the scripted result; every entry of every queue must still reach its stream exactly
+/// once, in order, and both writers must terminate.
+pub fn c01_multi(cfg: &Value) {
+    let queues = cfg["queues"].as_u64().unwrap_or(2) as usize;
+    let n = cfg["n"].as_u64().unwrap_or(2) as usize;
+    let script_s = cfg["script"].as_str().unwrap_or("io").to_string();
+    let mut all = Vec::new();
+    for qi in 0..queues {
+        let script = parse_script(&script_s, 1, n);
+        // tags are per queue: producer id = queue index
+        let script: BTreeMap<Tag, Res> = script.into_iter().map(|(t, r)| (Tag { p: qi as u8, seq: t.seq }, r)).collect();
+        let (stream, log) = RecStream::new(script);
+        let (q, handle) = build(false, 8, stream);
+        all.push((q, handle, log));
+    }
+    for (qi, (q, _, _)) in all.iter().enumerate() {
+        for si in 0..n {
+            q.append(Tag { p: qi as u8, seq: si as u8 });
+        }
+    }
+    let mut logs = Vec::new();
+    for (q, handle, log) in all {
+        drop(q);
+        drop(handle);
+        logs.push(log);
+    }
+    let mut outcome = String::new();
+    for (qi, log) in logs.iter().enumerate() {
+        let log = log.lock().unwrap().clone();
+        outcome.push_str(&format!("q{qi}: {} | ", log_string(&log)));
+        let tags = tags_in(&log);
+        let want: Vec<Tag> = (0..n).map(|si| Tag { p: qi as u8, seq: si as u8 }).collect();
+        if tags != want {
+            mc::violation("multi-queue-entry-lost-duplicated-or-reordered", format!("queue {qi}: the stream saw {tags:?}, appended {want:?}: {}", log_string(&log)));
+        }
+    }
+    mc::outcome(outcome);
 }
